@@ -5,7 +5,8 @@ import json, os, re, collections
 from vlib import Run, Infra, tla_set, log, cfg_text
 
 BASE = dict(defaultInitValue="defaultInitValue", E=3, R=1, P=1, MaxT=5, MaxKids=4, MaxRecs=2, MaxFaults=0, MaxOpFaults=0,
-            MaxRevokes=1, Ticks="{1}", MidOpTicks="FALSE", EmitEvery=1)
+            MaxRevokes=1, Ticks="{1}", MidOpTicks="FALSE", EmitEvery=1,
+            OpKinds='{"Enc", "Dec", "CloseSession", "Restart"}')
 
 ASSUME = [
     "the metastore and KMS are the harness's fakes of the SDK's Metastore / KeyManagementService interfaces (authoritative table, insert-if-absent Store)",
@@ -21,7 +22,7 @@ CLAUSES = {
     "C02": ("C02.",),
     "C03": ("C03.",),
     "C04": ("C04.",),
-    "C05": ("C05.",),
+    "C05": ("C05.", "C01.DecryptsBack"),   # ... records written under the revoked key remain decryptable
     "C09": ("C09.",),
     "C10": ("C10.",),
     "C14": ("C14.", "C02.ChainDurableAtReturn"),
@@ -39,7 +40,8 @@ def family(run, label, over, procs=("p1",), parts=("a",), ik=("session", "shared
              SessModes="{" + ",".join("TRUE" if x else "FALSE" for x in sess) + "}", CfgSet="<- UniformCfgs")
     run.spec_files("Envelope.tla", "EnvelopeMC.tla", "EnvelopeGen.tla", "EnvelopeObs.tla")
     run.write("GEN_%s.cfg" % label, cfg_text("GSpec", c, invs=["ChainClosed", "NoIKUnderExpiredSK", "NoViolation", "UniqueKeys"],
-                                             view="ViewVars", props=[] if simulate else ["InsertOnly"]))
+                                             view="ViewVars", props=[] if simulate else ["InsertOnly"],
+                                             action_constraint="LocalStepsFirst" if len(procs) > 1 else None))
     g = run.tlc("EnvelopeGen.tla", "GEN_%s.cfg" % label, timeout=timeout, out_name="gen_%s.out" % label, simulate=simulate)
     if simulate is None:
         run.tlc_must_hold(g, "Envelope.tla design check (%s)" % label)
@@ -161,6 +163,8 @@ def check_C04(run):
                             ik=("session", "shared") if q else ("session", "shared", "none"), sk=(True,) if q else (True, False))),
             ("precision2", dict(over=dict(P=2, MaxT=8 if q else 10, Ticks="{1,2}" if q else "{1}", MaxKids=5, MaxRecs=1, MaxRevokes=0, EmitEvery=10 if q else 40),
                                 ik=("session",), sk=(True,)))]
+    fams.append(("E-multiple-of-P", dict(over=dict(E=2, R=1, P=2, MaxT=8 if q else 10, Ticks="{1}", MaxKids=6, MaxRecs=1, MaxRevokes=0, EmitEvery=8 if q else 30),
+                                         ik=("session", "none"), sk=(True,))))
     if not q:
         fams.append(("expiry+revoke", dict(over=dict(MaxT=7, MaxKids=6, MaxRecs=1, MaxRevokes=1, EmitEvery=60), ik=("session", "shared"), sk=(True, False))))
     return generic(run, fams)
@@ -171,6 +175,8 @@ def check_C05(run):
     fams = [("revoke", dict(over=dict(MaxT=5 if q else 6, MaxKids=5 if q else 6, MaxRecs=1, MaxRevokes=1 if q else 2, EmitEvery=12 if q else 60),
                             ik=("session", "shared") if q else ("session", "shared", "none"), sk=(True, False))),
             ("revoke-sesscache", dict(over=dict(MaxT=5, MaxKids=5, MaxRecs=1, MaxRevokes=1, EmitEvery=12 if q else 30), ik=("session",), sk=(True,), sess=(True,)))]
+    fams.append(("revoke+fault", dict(over=dict(MaxT=4 if q else 5, MaxKids=4, MaxRecs=1, MaxRevokes=1, MaxFaults=1, MaxOpFaults=1, EmitEvery=20 if q else 40),
+                                      ik=("session",) if q else ("session", "shared"), sk=(True,))))
     if not q:
         fams.append(("revoke-2proc", dict(over=dict(MaxT=4, MaxKids=5, MaxRecs=1, MaxRevokes=1, EmitEvery=80), procs=("p1", "p2"), ik=("session",), sk=(True,))))
     return generic(run, fams)
@@ -190,6 +196,8 @@ def check_C02(run):
                             ik=("session",) if q else ("session", "none"), sk=(True,) if q else (True, False))),
             ("faults-warm", dict(over=dict(MaxT=3, Ticks="{1}", MaxKids=4, MaxRecs=1, MaxRevokes=1, MaxFaults=2, MaxOpFaults=2, EmitEvery=8 if q else 30),
                                  ik=("shared",), sk=(True,)))]
+    fams.append(("midop-clock", dict(over=dict(P=1, MaxT=3 if q else 4, Ticks="{1}", MidOpTicks="TRUE", MaxKids=2 if q else 4, MaxRecs=1, MaxRevokes=0, MaxFaults=0,
+                                               EmitEvery=6 if q else 30), ik=("session",), sk=(True,))))
     if not q:
         fams.append(("faults-2proc", dict(over=dict(MaxT=1, Ticks="{1}", MaxKids=4, MaxRecs=1, MaxRevokes=0, MaxFaults=2, MaxOpFaults=1, EmitEvery=100),
                                           procs=("p1", "p2"), ik=("session",), sk=(True,))))
@@ -198,11 +206,12 @@ def check_C02(run):
 
 def check_C14(run):
     q = run.quick
-    fams = [("race-cold", dict(over=dict(MaxT=1, Ticks="{1}", MaxKids=4, MaxRecs=1 if q else 2, MaxRevokes=0, EmitEvery=40 if q else 10), procs=("p1", "p2"), ik=("session",), sk=(True,))),
+    fams = [("race-cold", dict(over=dict(MaxT=1, Ticks="{1}", MaxKids=4, MaxRecs=1 if q else 2, MaxRevokes=0, EmitEvery=6 if q else 4), procs=("p1", "p2"), ik=("session",), sk=(True,))),
             ("race-expired", dict(over=dict(MaxT=5, Ticks="{4}", MaxKids=6, MaxRecs=1, MaxRevokes=0, EmitEvery=30 if q else 100), procs=("p1", "p2"), ik=("session",), sk=(True,),
                                   simulate=("num=%d" % (400 if q else 20000)), ))]
+    fams.append(("race-revoked", dict(over=dict(MaxT=1 if q else 2, Ticks="{1}", MaxKids=5 if q else 6, MaxRecs=1, MaxRevokes=1, EmitEvery=4 if q else 20, OpKinds='{"Enc"}' if q else '{"Enc", "Dec"}'), procs=("p1", "p2"),
+                                      ik=("session",) if q else ("session", "none"), sk=(True,))))
     if not q:
-        fams.append(("race-revoked", dict(over=dict(MaxT=2, Ticks="{1}", MaxKids=6, MaxRecs=1, MaxRevokes=1, EmitEvery=100), procs=("p1", "p2"), ik=("session", "none"), sk=(True,))))
         fams.append(("race-2parts", dict(over=dict(MaxT=1, Ticks="{1}", MaxKids=5, MaxRecs=2, MaxRevokes=0, EmitEvery=50), procs=("p1", "p2"), parts=("a", "b"), ik=("shared",), sk=(True,))))
     return generic(run, fams)
 
